@@ -21,6 +21,12 @@
 (* With SmallStep the stages are separate steps (stage invariants); without*)
 (* it `Load(md)` is the composition — one action per public call — and the *)
 (* dumped graph is the test table replayed on the real classes.            *)
+(* Bystander.  `Load(md, TRUE)` (file modes) first loads a small fixed     *)
+(* world ByDesc from a SECOND handle of the same resource map and leaves   *)
+(* it disabled ("preloading"): `bw` is that world, with its own queue of   *)
+(* postponed events.  `EnableBy` enables it, before or after the world     *)
+(* under test.  Nothing that happens to one world may show in the other:   *)
+(* BystanderUndisturbed below, and OnEnable for the world under test.      *)
 (* Modes: file1 / file2 = WorldFromFileHandle stored at depth 1 / depth 2  *)
 (* (below an implicitly created map) of a ResourceMap; dict = WorldHandle  *)
 (* whose only transformer is populate_world_from_dict on a dict with types *)
@@ -53,8 +59,9 @@ VARIABLES desc,   \* the description (changes only by Rewrite)
           mode,   \* "-" until a load starts; file1/file2 collapse to "file" once loaded
           dicts,  \* working copies of the processor/component dicts (local to the load)
           w,      \* the world: procs, rows, next, enabled, queue, reg, log
-          err     \* "none" or the exception class that left load()
-vars == <<desc, pc, round, gen, mode, dicts, w, err>>
+          err,    \* "none" or the exception class that left load()
+          bw      \* the bystander world (same shape as w; Lean: enabled and log only), NoBy when there is none
+vars == <<desc, pc, round, gen, mode, dicts, w, err, bw>>
 
 -----------------------------------------------------------------------------
 (* Argument alphabet.  A description names its argument values by token;   *)
@@ -117,6 +124,7 @@ ResObj(path) == path \o "#" \o ToString(gen)      \* the object the resource's h
 NoEnt    == <<"-", 0>>
 NoWho    == <<"-", 0, 0>>
 NoDicts  == [procs |-> <<>>, ents |-> <<>>]
+NoBy     == [absent |-> TRUE]
 NoDesc   == [procs |-> <<>>, ents |-> <<>>, forgotten |-> TRUE]     \* Lean: not a description (the empty one has no third field)
 IsFile(md) == md \in {"file1", "file2", "file"}
 
@@ -303,8 +311,24 @@ St0 == [dicts |-> NoDicts, w |-> NewWorld(TRUE), err |-> "none"]
 Collapse(md) == IF IsFile(md) THEN "file" ELSE md
 Modes == {"file1", "file2", "dict", "bare"}
 
+\* the bystander: a handler processor, an entity "hero" (the same identifier may be in use in the world under test:
+\* identifiers are per world) with two handler components, an anonymous entity that listens to on_world_load only
+ByDesc == [procs |-> << [type |-> "PHandler", args |-> <<>>, kwargs |-> << <<"val", "M7">> >>] >>,
+           ents  |-> << [id |-> <<"s", 1>>,
+                         comps |-> << [type |-> "CHandler", args |-> <<"H2">>, kwargs |-> <<>>],
+                                      [type |-> "CAddOnly", args |-> <<>>, kwargs |-> <<>>] >>],
+                        [id |-> AutoMark,
+                         comps |-> << [type |-> "CLoadOnly", args |-> <<"N1">>, kwargs |-> <<>>] >>] >>]
+ASSUME PrintT(<<"WORLDLOAD-BYDESC", ByDesc>>)
+ByLoaded == Run(St0, 1, ByDesc, "file1").w        \* loaded through its own file handle at depth 1, still disabled
+\* Lean (the dumped instance) keeps of the bystander what the replay compares; a disabled bystander is ByLoaded
+\* (BystanderUndisturbed, checked in the other instances), so nothing is lost
+Slim(x) == IF Lean THEN [enabled |-> x.enabled, log |-> x.log] ELSE x
+Preload(b) == IF b THEN Slim(ByLoaded) ELSE NoBy
+
 Init == /\ PickDesc(desc)
         /\ pc = "desc" /\ round = 1 /\ gen = 1 /\ mode = "-" /\ dicts = NoDicts /\ w = NewWorld(TRUE) /\ err = "none"
+        /\ bw = NoBy
 
 Land(st, p, md) ==   \* common tail: publish a stage result
     /\ dicts' = st.dicts /\ w' = st.w /\ err' = st.err
@@ -313,45 +337,57 @@ Land(st, p, md) ==   \* common tail: publish a stage result
     /\ desc' = IF Lean /\ ~Again(desc) /\ (p = "loaded" \/ st.err # "none") THEN NoDesc ELSE desc
     /\ UNCHANGED <<round, gen>>
 
-Load(md) == /\ ~SmallStep /\ pc = "desc"
-            /\ Land(Run(St0, 1, desc, md), "loaded", md)
+\* b: the bystander is loaded first (explored next to file handles)
+Load(md, b) == /\ ~SmallStep /\ pc = "desc" /\ (b => IsFile(md))
+               /\ bw' = Preload(b)
+               /\ Land(Run(St0, 1, desc, md), "loaded", md)
 
 \* second access of a cleared handle: the same handle object (hence the same mode) loads again
 Reload == /\ ~SmallStep /\ pc \in {"cleared", "rewritten"}
           /\ Land(Run(St0, 1, desc, mode), "loaded", mode)
+          /\ UNCHANGED bw
 
-Begin(md) == /\ SmallStep
-             /\ \/ pc = "desc" /\ md \in Modes
-                \/ pc \in {"cleared", "rewritten"} /\ md = mode
-             /\ Land(Apply("new", St0, desc, md), "new", md)
+Begin(md, b) == /\ SmallStep
+                /\ \/ pc = "desc" /\ md \in Modes /\ (b => IsFile(md)) /\ bw' = Preload(b)
+                   \/ pc \in {"cleared", "rewritten"} /\ md = mode /\ b = (bw # NoBy) /\ bw' = bw
+                /\ Land(Apply("new", St0, desc, md), "new", md)
 
 Step == /\ SmallStep /\ pc \in {"new", "defaults", "transformed", "populated"}
         /\ LET nxt == Stages[StageNo(pc) + 1]
            IN Land(Apply(nxt, [dicts |-> dicts, w |-> w, err |-> err], desc, mode), nxt, mode)
+        /\ UNCHANGED bw
 
 Enable == /\ pc = "loaded"
           /\ w' = SetEnabled(w) /\ pc' = "enabled"
-          /\ UNCHANGED <<desc, round, gen, mode, dicts, err>>
+          /\ UNCHANGED <<desc, round, gen, mode, dicts, err, bw>>
+
+\* the bystander's dispatch_enabled = True: its own queue is released to its own listeners
+EnableBy == /\ pc \in {"loaded", "enabled"} /\ bw # NoBy
+            /\ ~bw.enabled
+            /\ bw' = Slim(SetEnabled(IF Lean THEN ByLoaded ELSE bw))
+            /\ UNCHANGED <<desc, pc, round, gen, mode, dicts, w, err>>
 
 \* Handle.__call__ on a cached handle (handle() again, resource_map[key] again): the cached world, nothing else
 Access == /\ pc \in {"loaded", "enabled"} /\ mode # "bare"
           /\ UNCHANGED vars
 
+\* (bounding: next to a bystander the second round starts once the bystander is enabled, and is the plain reload)
 SecondRound == round = 1 /\ mode = "file" /\ desc # NoDesc /\ Again(desc)
-ClearHandle == /\ pc = "enabled" /\ SecondRound
+ByQuiet == IF bw = NoBy THEN TRUE ELSE bw.enabled
+ClearHandle == /\ pc = "enabled" /\ SecondRound /\ ByQuiet
                /\ pc' = "cleared" /\ round' = 2 /\ w' = NewWorld(TRUE)
-               /\ UNCHANGED <<desc, gen, mode, dicts, err>>
+               /\ UNCHANGED <<desc, gen, mode, dicts, err, bw>>
 \* the components of the first world mutate their list/dict arguments in place (no trace in the model: the next
 \* world is built from the file, not from them) and the resource handles are cleared
-Disturb == /\ pc = "cleared" /\ gen = 1
+Disturb == /\ pc = "cleared" /\ gen = 1 /\ bw = NoBy
            /\ gen' = 2
-           /\ UNCHANGED <<desc, pc, round, mode, dicts, w, err>>
-Rewrite == /\ pc = "cleared"
+           /\ UNCHANGED <<desc, pc, round, mode, dicts, w, err, bw>>
+Rewrite == /\ pc = "cleared" /\ bw = NoBy
            /\ desc' = AltDesc /\ pc' = "rewritten"
-           /\ UNCHANGED <<round, gen, mode, dicts, w, err>>
+           /\ UNCHANGED <<round, gen, mode, dicts, w, err, bw>>
 
-Next == (\E md \in Modes : Load(md)) \/ (\E md \in Modes \cup {"file"} : Begin(md)) \/ Reload \/ Step \/ Enable
-        \/ Access \/ ClearHandle \/ Disturb \/ Rewrite
+Next == (\E md \in Modes, b \in BOOLEAN : Load(md, b)) \/ (\E md \in Modes \cup {"file"}, b \in BOOLEAN : Begin(md, b))
+        \/ Reload \/ Step \/ Enable \/ EnableBy \/ Access \/ ClearHandle \/ Disturb \/ Rewrite
 Spec == Init /\ [][Next]_vars
 
 -----------------------------------------------------------------------------
@@ -406,8 +442,8 @@ WorldLoadQueuedLast == (pc = "loaded" /\ mode # "bare") =>
 Owner(x, who) == IF \E i \in DOMAIN x.rows : \E j \in DOMAIN x.rows[i].comps : x.rows[i].comps[j].who = who
                  THEN x.rows[CHOOSE i \in DOMAIN x.rows : \E j \in DOMAIN x.rows[i].comps : x.rows[i].comps[j].who = who].id
                  ELSE NoEnt
-ExpCalls(who, type, md) ==
-    (IF "on_add" \in Decl(type) THEN <<Call(who, "on_add", Owner(w, who))>> ELSE <<>>)
+ExpCalls(x, who, type, md) ==      \* what handler `who` of world x hears once x is enabled
+    (IF "on_add" \in Decl(type) THEN <<Call(who, "on_add", Owner(x, who))>> ELSE <<>>)
     \o (IF "on_world_load" \in Decl(type) /\ md # "bare" THEN <<Call(who, "on_world_load", NoEnt)>> ELSE <<>>)
 Handlers(d) == {[who |-> <<"p", i, 0>>, type |-> d.procs[i].type] : i \in DOMAIN d.procs}
                \cup UNION {{[who |-> <<"c", e, j>>, type |-> d.ents[e].comps[j].type] : j \in DOMAIN d.ents[e].comps} : e \in DOMAIN d.ents}
@@ -416,8 +452,17 @@ CallsOf(lg, who) == LET M(c) == c.who = who IN SelectSeq(lg, M)
 \* once enabled: every handler component gets on_add once and then on_world_load(handle, world) once
 OnEnable == (pc = "enabled") =>
     /\ w.enabled /\ w.queue = <<>>
-    /\ \A h \in Handlers(desc) : CallsOf(w.log, h.who) = ExpCalls(h.who, h.type, mode)
+    /\ \A h \in Handlers(desc) : CallsOf(w.log, h.who) = ExpCalls(w, h.who, h.type, mode)
     /\ \A i \in DOMAIN w.log : \E h \in Handlers(desc) : h.who = w.log[i].who
+
+\* a second world of the same map: as long as it is disabled it is exactly as its handle returned it (silent, its own
+\* postponed events waiting), whatever is done to the world under test; once enabled it has heard its own on_add /
+\* on_world_load, once each per handler, and nothing else
+BystanderUndisturbed == (bw # NoBy) =>
+    IF ~bw.enabled THEN bw = Preload(TRUE)
+    ELSE /\ (~Lean => bw.queue = <<>> /\ bw.procs = ByLoaded.procs /\ bw.rows = ByLoaded.rows)
+         /\ \A h \in Handlers(ByDesc) : CallsOf(bw.log, h.who) = ExpCalls(bw, h.who, h.type, "file")
+         /\ \A i \in DOMAIN bw.log : \E h \in Handlers(ByDesc) : h.who = bw.log[i].who
 
 \* the one-step Load of the dumped instance is the composition of the stages checked here
 BigStepAgrees == (SmallStep /\ pc \in {"loaded", "failed"}) =>
@@ -431,4 +476,5 @@ TypeOK == /\ pc \in {"desc", "new", "defaults", "transformed", "populated", "loa
           /\ mode \in Modes \cup {"-", "file"}
           /\ err \in {"none", "KeyError"}
           /\ (pc = "failed") <=> (err # "none")
+          /\ (IF bw = NoBy THEN TRUE ELSE bw.enabled \in BOOLEAN /\ mode \in {"file", "file1", "file2"})
 =============================================================================
